@@ -299,6 +299,31 @@ def _gen_world(rng, nfun, allow):
     return prune(w)
 
 
+def gen_shared_keeps_world(rng):
+    """several kept parents, each keeping - in its own order - some of a common pool of (path, function, literal argument)
+    triples: the same node is reached from several parents, next to different siblings (every site of a path has the same
+    signature, so the evaluation is accepted)"""
+    nleaf = rng.randint(3, 4)
+    npar = rng.randint(2, 4)
+    funs = []
+    pool = []
+    for i in range(nleaf):
+        name = "f%d" % (10 + i)
+        pool.append({"k": "keep", "path": "/s%d" % i, "f": name, "args": [{"c": jv("int", str(i + 1))}], "kwargs": []})
+        funs.append({"name": name, "params": [["a", None]], "store_path": None, "tag": "%s#0" % name, "reads": [], "items": [],
+                     "fails": None, "uses_ext": False, "ws": None})
+    parents = []
+    for j in range(npar):
+        name = "f%d" % (1 + j)
+        its = [copy.deepcopy(x) for x in rng.sample(pool, rng.randint(2, min(3, nleaf)))]
+        parents.append({"name": name, "params": [], "store_path": None, "tag": "%s#0" % name, "reads": [], "items": its,
+                        "fails": None, "uses_ext": False, "ws": None})
+    root = {"name": "f0", "params": [], "store_path": None, "tag": "f0#0", "reads": [],
+            "items": [{"k": "keep", "path": "/par%d" % j, "f": "f%d" % (1 + j), "args": [], "kwargs": []} for j in range(npar)],
+            "fails": None, "uses_ext": False, "ws": None}
+    return prune({"vars": [["V0", jv("int", "0")]], "funs": [root] + parents + funs, "ext_version": 0, "extra": []})
+
+
 def sites_ok(world):
     """a function that is the target of a keep has that keep as its only invocation site; other functions
     are only invoked by plain calls / references, i.e. always with the same (default) argument context -
